@@ -95,12 +95,141 @@ static void answer(int status, const char *p, esl_pos_t n, int z)
   }
 }
 
+/* BEGIN round4-mem */
+/* Stateless ops on the string/number helpers of esl_mem.c (protocol: lean/EaselModel/Buffer/MemDriver.lean).
+ * The memory line is copied into an exactly sized malloc block (no terminator), C-string arguments into blocks of
+ * strlen+1 bytes, so that ASan sees any over-read. */
+#include "esl_mem.h"
+static char *mem_exact(const char *key, int64_t *n, int *isnull)
+{
+  const char *a = h_arg(key); unsigned char *t; char *b;
+  *isnull = 0; *n = 0;
+  if (!a) return NULL;
+  if (!strcmp(a, "null")) { *isnull = 1; return NULL; }
+  t = h_unhex(a, n);
+  b = malloc((size_t) *n); if (!b) b = malloc(1);
+  if (*n > 0) memcpy(b, t, (size_t) *n);
+  free(t);
+  return b;
+}
+/* C-string argument: bytes up to the first NUL + NUL, exactly sized */
+static char *mem_cstr(const char *key, int *isnull)
+{
+  const char *a = h_arg(key); unsigned char *t; char *b; int64_t n; size_t l;
+  *isnull = 0;
+  if (!a) return NULL;
+  if (!strcmp(a, "null")) { *isnull = 1; return NULL; }
+  t = h_unhex(a, &n);
+  l = strlen((char *) t);
+  b = malloc(l + 1); memcpy(b, t, l + 1);
+  free(t);
+  return b;
+}
+#define MEM_STRTOI(FN, T, PA, PB, FMT)                                                                                  \
+  { T va = (T) (PA), vb = (T) (PB), v3 = (T) (PA); int na = -77, nb = -78, n3 = -77; int s1, s2, s3, s4, s5;               \
+    s1 = FN(p, n, base, &na, &va);  s2 = FN(p, n, base, &nb, &vb);                                                       \
+    s3 = FN(p, n, base, &n3, NULL); s4 = FN(p, n, base, NULL, &v3); s5 = FN(p, n, base, NULL, NULL);                     \
+    if (s1 != s2 || s1 != s3 || s1 != s4 || s1 != s5) h_out("INCONSISTENT-STATUS %d %d %d %d %d", s1, s2, s3, s4, s5);   \
+    else if (na == -77 && nb == -78 && va == (T) (PA) && vb == (T) (PB)) {                                                \
+      if (n3 != -77 || v3 != (T) (PA)) h_out("INCONSISTENT-OPT"); else h_out("%s nc=untouched val=untouched", h_status(s1)); } \
+    else if (na != nb || va != vb || n3 != na || v3 != va) h_out("INCONSISTENT-OPT %s nc=%d/%d/%d", h_status(s1), na, nb, n3);  \
+    else h_out("%s nc=%d val=%" FMT, h_status(s1), na, va); }
+static int mem_op(void)
+{
+  const char *op = h_words[0];
+  int64_t n = 0; int pnull = 0, snull = 0; char *p = NULL, *s = NULL;
+
+  if (!strcmp(op, "strtoi32") || !strcmp(op, "strtoi64") || !strcmp(op, "strtoi")) {
+    int base = (int) h_argi("base", 10);
+    p = mem_exact("hex", &n, &pnull);
+    if (!p) { h_out("bad-op"); return 1; }
+    if      (!strcmp(op, "strtoi32")) MEM_STRTOI(esl_mem_strtoi32, int32_t, 0x5a5a5a5a, 0x25a5a5a5, PRId32)
+    else if (!strcmp(op, "strtoi64")) MEM_STRTOI(esl_mem_strtoi64, int64_t, 0x5a5a5a5a5a5a5a5aLL, 0x25a5a5a5a5a5a5a5LL, PRId64)
+    else                              MEM_STRTOI(esl_mem_strtoi,   int,     0x5a5a5a5a, 0x25a5a5a5, "d")
+    free(p);
+    return 1;
+  }
+  if (!strcmp(op, "memspn") || !strcmp(op, "memcspn")) {
+    p = mem_exact("hex", &n, &pnull); s = mem_cstr("set", &snull);
+    if (!p || !s) { free(p); free(s); h_out("bad-op"); return 1; }
+    h_out("n=%" PRId64, (int64_t) (!strcmp(op, "memspn") ? esl_memspn(p, n, s) : esl_memcspn(p, n, s)));
+    free(p); free(s);
+    return 1;
+  }
+  if (!strcmp(op, "memtok")) {
+    char *q, *tok = h_poison; esl_pos_t m, toklen = -77; int st;
+    p = mem_exact("hex", &n, &pnull); s = mem_cstr("delim", &snull);
+    if (!p || !s) { free(p); free(s); h_out("bad-op"); return 1; }
+    q = p; m = n;
+    st = esl_memtok(&q, &m, s, &tok, &toklen);
+    if (tok == h_poison || toklen == -77) h_out("%s UNTOUCHED-OUT-PARAM", h_status(st));
+    else if (tok == NULL) h_out("%s tok=null at=0 off=%" PRId64 " n=%" PRId64 "%s", h_status(st), (int64_t) (q - p), (int64_t) m, toklen != 0 ? " DIRTY-TOKLEN" : "");
+    else if (tok < p || toklen < 0 || tok + toklen > p + n) h_out("%s TOKEN-OUTSIDE-LINE", h_status(st));
+    else h_out("%s tok=%s at=%" PRId64 " off=%" PRId64 " n=%" PRId64, h_status(st), h_hex(tok, toklen), (int64_t) (tok - p), (int64_t) (q - p), (int64_t) m);
+    free(p); free(s);
+    return 1;
+  }
+  if (!strcmp(op, "memnewline")) {
+    esl_pos_t nline = -77; int nterm = -77, st;
+    p = mem_exact("hex", &n, &pnull);
+    if (!p) { h_out("bad-op"); return 1; }
+    st = esl_memnewline(p, n, &nline, &nterm);
+    h_out("%s nline=%" PRId64 " nterm=%d", h_status(st), (int64_t) nline, nterm);
+    free(p);
+    return 1;
+  }
+  if (!strcmp(op, "memstrcmp") || !strcmp(op, "memstrpfx") || !strcmp(op, "memstrcontains") || !strcmp(op, "memstrcmp_case") || !strcmp(op, "memstrpfx_case")) {
+    int r;
+    p = mem_exact("hex", &n, &pnull); s = mem_cstr("s", &snull);
+    if ((!p && !pnull) || (!s && !snull)) { free(p); free(s); h_out("bad-op"); return 1; }
+    if      (!strcmp(op, "memstrcmp"))      r = esl_memstrcmp(p, n, s);
+    else if (!strcmp(op, "memstrpfx"))      r = esl_memstrpfx(p, n, s);
+    else if (!strcmp(op, "memstrcontains")) r = esl_memstrcontains(p, n, s);
+    else if (!strcmp(op, "memstrcmp_case")) r = esl_memstrcmp_case(p, n, s);
+    else                                    r = esl_memstrpfx_case(p, n, s);
+    h_out("r=%d", r);
+    free(p); free(s);
+    return 1;
+  }
+  if (!strcmp(op, "memstrdup")) {
+    char *d = h_poison; int st;
+    p = mem_exact("hex", &n, &pnull);
+    if (!p && !pnull) { h_out("bad-op"); return 1; }
+    st = esl_memstrdup(p, n, &d);
+    if (d == h_poison) h_out("%s UNTOUCHED-OUT-PARAM", h_status(st));
+    else if (d == NULL) h_out("%s null", h_status(st));
+    else { h_out("%s %s", h_status(st), h_hex(d, n + 1)); free(d); }
+    free(p);
+    return 1;
+  }
+  if (!strcmp(op, "memstrcpy")) {
+    char *d; int st;
+    p = mem_exact("hex", &n, &pnull);
+    if (!p) { h_out("bad-op"); return 1; }
+    d = malloc((size_t) n + 1); memset(d, 0x7e, (size_t) n + 1);
+    st = esl_memstrcpy(p, n, d);
+    h_out("%s %s", h_status(st), h_hex(d, n + 1));
+    free(d); free(p);
+    return 1;
+  }
+  if (!strcmp(op, "memisreal")) {
+    p = mem_exact("hex", &n, &pnull);
+    if (!p && !pnull) { h_out("bad-op"); return 1; }
+    h_out("r=%d", esl_mem_IsReal(p, n));
+    free(p);
+    return 1;
+  }
+  return 0;
+}
+/* END round4-mem */
+
 static void h_op(void)
 {
   const char *op = h_words[0];
   int status; char *p = NULL; esl_pos_t n = 0;
 
   if (g_skip) { h_out("skipped"); return; }
+  if (mem_op()) return;   /* round4-mem */
   if (!strcmp(op, "open")) {
     const char *mode = h_arg("mode"); unsigned char *tmp; int64_t len;
     if (!mode || !h_arg("hex")) { h_out("bad-op"); return; }
